@@ -1,20 +1,44 @@
 """C01 — self-financing trading (family L, DESIGN §4 C01)."""
-from harness import l_ops
+from harness import l_ops, l_rebalance
 from harness.ledger import ASSUMPTIONS as _A
 
 PROPERTY = "C01"
-harness = l_ops.harness
+
+
+def harness(c, cfg):
+    if cfg.get("op") == "rebalance":
+        return l_rebalance.harness(c, cfg)
+    return l_ops.harness(c, cfg)
 
 
 def configs(tier):
-    return l_ops.configs_for("C01", tier)
+    out = l_ops.configs_for("C01", tier)
+
+    def add(**kw):
+        kw["prop"] = "C01"
+        kw["op"] = "rebalance"
+        kw["id"] = "C01/" + ",".join("%s=%s" % (k, v) for k, v in sorted(kw.items()) if k != "prop")
+        out.append(kw)
+
+    # the rebalancing path: trades built from the exchange's current quotes
+    for kind in ("spot", "margined"):
+        for shape in ("fresh", "long", "short"):
+            add(kindA=kind, shapeA=shape, measure="weight")
+        add(kindA=kind, shapeA="held", roleA="untargeted", measure="weight")
+    if tier == "thorough":
+        for ka in ("spot", "margined"):
+            for kb in ("spot", "margined"):
+                add(kindA=ka, shapeA="held", kindB=kb, shapeB="held", measure="weight")
+                add(kindA=ka, shapeA="held", kindB=kb, shapeB="held", roleB="untargeted", measure="nr-contracts")
+    return out
 
 
 ANCHORS = ["broker.py:Broker.transact", "broker.py:Broker.marking_to_market",
            "broker.py:Broker.holdings_values", "broker.py:Broker.net_liquidation_value",
            "trade.py:Trade.__init__", "fees.py:BrokerFees.commissions",
-           "exchange.py:LimitOrderBook.acq_price", "exchange.py:Exchange.process_EventNBBO"]
-EXPECT_REACH = ["trade", "quote", "mtm"]
+           "exchange.py:LimitOrderBook.acq_price", "exchange.py:Exchange.process_EventNBBO",
+           "broker.py:Broker.rebalance", "rebalancing.py:Rebalancing.make_trades"]
+EXPECT_REACH = ["trade", "quote", "mtm", "rebalance"]
 ASSUMPTIONS = _A
 BOUNDS = {
     "quick": "one traded contract (user-defined spot-like or margined spec with symbolic multiplier "
